@@ -579,7 +579,14 @@ template<class T> static void float_solve(vf::Ctx& c, bool lsq, LD kmax)
 	c.desc(vf::fmt("%s %s m=%d n=%d nrhs=%d gen=%s A=%s B=%s", tn.c_str(), lsq ? "least squares" : "solve", m, n, nrhs, FGEN[style], lstr<T>(A, m, n).c_str(), lstr<T>(B, m, nrhs).c_str()));
 	c.count(("fl." + tag + ".cases").c_str());
 	LV N = A, G = B;
-	if (lsq) { LV At = ltrans(A, m, n); N = lmul(At, n, m, A, n); G = lmul(At, n, m, B, nrhs); }
+	LD gabs = 0;  // max entry of |A|t |B|: the scale of the rounding error made when At*B is formed (it can cancel to a much smaller At*B)
+	if (lsq) {
+		LV At = ltrans(A, m, n); N = lmul(At, n, m, A, n); G = lmul(At, n, m, B, nrhs);
+		LV Aa = At, Ba = B;
+		for (size_t i = 0; i < Aa.size(); i++) Aa[i] = fabsl(Aa[i]);
+		for (size_t i = 0; i < Ba.size(); i++) Ba[i] = fabsl(Ba[i]);
+		gabs = lmaxabs(lmul(Aa, n, m, Ba, nrhs));
+	}
 	LV Ni;
 	if (!linverse(N, n, Ni, 0)) { c.count(("fl." + tag + ".singular_skipped").c_str()); return; }
 	LD nN = lnorm_inf(N, n, n), k = nN * lnorm_inf(Ni, n, n);
@@ -596,8 +603,9 @@ template<class T> static void float_solve(vf::Ctx& c, bool lsq, LD kmax)
 	for (size_t i = 0; i < Rz.size(); i++) { Rz[i] -= G[i]; E[i] -= Xref[i]; }
 	std::string kd = vf::fmt("kappa_inf=%.4Lg n=%d", k, n);
 	LD nx = lmaxabs(X);
-	judge(c, tag + ".residual", tag + ".residual", lmaxabs(Rz), n * eps * k * (nN * nx + lmaxabs(G)), (lsq ? "max|AtA x - At b|; " : "max|A x - b|; ") + kd);
-	judge(c, tag + ".forward", tag + ".forward-error", lmaxabs(E), n * eps * k * lmaxabs(Xref), "max|x - x_ref| against the long-double solution; " + kd);
+	judge(c, tag + ".residual", tag + ".residual", lmaxabs(Rz), n * eps * k * (nN * nx + (lsq ? gabs : lmaxabs(G))), (lsq ? "max|AtA x - At b|, scale |AtA||x| + |A|t|b|; " : "max|A x - b|; ") + kd);
+	judge(c, tag + ".forward", tag + ".forward-error", lmaxabs(E), n * eps * k * (lsq ? lmaxabs(Xref) + lnorm_inf(Ni, n, n) * gabs : lmaxabs(Xref)),
+	      "max|x - x_ref| against the long-double solution" + std::string(lsq ? ", scale |x_ref| + |inv(AtA)| |A|t|b|; " : "; ") + kd);
 	if (!lsq && c.rng.below(3) == 0) {
 		asl::Matrix_<T> a = to_aslT<T>(A, n, n);
 		c.op("Matrix::inverse");
